@@ -23,7 +23,7 @@ Qed.
    transaction record: it is recorded as an object that is neither new nor deleted nor changed *)
 Theorem C18_old_activities_create_no_record : forall g s objs ents assoc,
   g_versioning g = true -> u_cur (s_uow s) = None ->
-  existsb (obj_modified g) objs = false ->
+  existsb (obj_modified g) objs || existsb (tracked g) ents = false ->
   d_tx (s_db (flush g s objs ents assoc)) = d_tx (s_db s).
 Proof.
   intros g s objs ents assoc Hv Hc Hm.
